@@ -1,6 +1,7 @@
 package main
 
 import (
+	"fmt"
 	"sort"
 	"strings"
 
@@ -114,4 +115,96 @@ func callRecv(g *ssa.Call) ssa.Value {
 		return g.Call.Args[0]
 	}
 	return nil
+}
+
+// c08RemovalEvicts (R8.9): every successful removal of a height's ODS evicts the
+// height from the store's cache first: an accessor left in a cache layer keeps a
+// removed block (and its descriptors) being served. (R8.8b) the synchronous close
+// in AccessorCache.Remove is made with no cache stripe lock held: it waits for the
+// readers, and a reader that needs GetOrLoad on a height of the same stripe before
+// it closes would wait for the remover in turn.
+func c08RemovalEvicts(c *Check, la *lockAnalysis) {
+	p := c.P
+	defer c08RefBeforeVisible(c)
+	c.Rule("R8.9", "every successful ODS removal passes the cache eviction of that height")
+	rm := p.Func("store", "Store", "removeODS")
+	if rm == nil {
+		c.Unresolved("R8.9", "Store.removeODS not found")
+		return
+	}
+	c.SawFunc(rm)
+	evict := blocksWhere(rm, func(ins ssa.Instruction) bool {
+		g, ok := ins.(*ssa.Call)
+		if !ok || !g.Call.IsInvoke() || g.Call.Method.Name() != "Remove" {
+			return false
+		}
+		f := fieldOfAddr(g.Call.Value)
+		return f != nil && f.Name() == "cache" && len(g.Call.Args) == 1 && g.Call.Args[0] == ssa.Value(rm.Params[1])
+	})
+	succ := blocksOfReturns(successReturns(rm))
+	res := gateWalkOpts(p, rm, minusBarrier(succ, evict), nil, nil, evict)
+	c.Ob("R8.9", "removeODS evicts before reporting success", len(evict) > 0 && !res.Reached, p.Pos(rm.Pos()),
+		"every success return of removeODS passes s.cache.Remove(height) for the height being removed (empty blocks are loaded into the serving cache like any other)", res.Witness...)
+	// R8.8b
+	arm := p.Func("store/cache", "AccessorCache", "Remove")
+	if arm == nil {
+		return
+	}
+	for _, b := range arm.Blocks {
+		for _, ins := range b.Instrs {
+			g, ok := ins.(*ssa.Call)
+			if !ok {
+				continue
+			}
+			o := calleeObj(&g.Call)
+			if o == nil || o.Name() != "close" || recvOfObj(o) != "accessor" {
+				continue
+			}
+			held := la.mayBefore[ins]
+			c.Ob("R8.8", "synchronous close outside the cache stripe lock", len(held) == 0, p.Pos(g.Pos()),
+				fmt.Sprintf("accessor.close() waits for the readers and is called with no lock of the cache held (held: %v)", held.keys()))
+		}
+	}
+}
+
+// c08RefBeforeVisible (R8.3b): in AccessorCache.GetOrLoad the caller's reference on a
+// freshly loaded accessor is taken BEFORE the accessor is added to the LRU. Once
+// it is in the LRU a concurrent Add of another height may evict and close it; with
+// the reference taken afterwards the loader itself gets "accessor closed" for a
+// block that is stored.
+func c08RefBeforeVisible(c *Check) {
+	p := c.P
+	fn := p.Func("store/cache", "AccessorCache", "GetOrLoad")
+	if fn == nil {
+		c.Unresolved("R8.3", "AccessorCache.GetOrLoad not found")
+		return
+	}
+	var add *ssa.Call
+	for _, b := range fn.Blocks {
+		for _, ins := range b.Instrs {
+			g, ok := ins.(*ssa.Call)
+			if !ok {
+				continue
+			}
+			if o := calleeObj(&g.Call); o != nil && o.Name() == "Add" {
+				if f := fieldOfAddr(callRecv(g)); f != nil && f.Name() == "cache" {
+					add = g
+				}
+			}
+		}
+	}
+	if add == nil {
+		c.Ob("R8.3", "GetOrLoad adds the loaded accessor", false, p.Pos(fn.Pos()), "GetOrLoad adds the loaded accessor to the LRU")
+		return
+	}
+	added := add.Call.Args[len(add.Call.Args)-1]
+	cut := callGates(func(k *ssa.Call, _ int) GateKind {
+		if k.Call.StaticCallee() != nil && k.Call.StaticCallee().Name() == "newRefCloser" && len(k.Call.Args) == 1 && sameValueThroughLocals(k.Call.Args[0], added) {
+			return GateErr
+		}
+		return NotGate
+	})
+	res := gateWalk(p, fn, map[*ssa.BasicBlock]bool{add.Block(): true}, cut, nil)
+	c.Ob("R8.3", "reference taken before the accessor is visible in the LRU", !res.Reached, p.Pos(add.Pos()),
+		"cache.Add(height, ac) is reachable only across the success edge of newRefCloser(ac) for that accessor", res.Witness...)
 }
